@@ -313,6 +313,13 @@ Definition decide_batch (f : facts) : res :=
     end
   else checkSendPermission f.
 
+(* C36-K2: where the two paths order their checks differently. *)
+(* the per-send path decodes the person channel id AFTER the sender and terminal checks,
+   the batch planner BEFORE them *)
+Definition k2_cond (f : facts) : bool :=
+  is_person (f_type f) && batchable f && negb (f_norm f && f_norm_err f)
+  && negb (f_sender_sys f) && negb (f_device_sys f) && f_decode_err f.
+
 (* ---- the declarative precedence table (property text: "fixed precedence") -------------
    [(fails, verdict)] in order; the decision is the verdict of the first failing check. *)
 
@@ -661,6 +668,43 @@ Definition batch_outcomes (rd : reader) (cfg : pcfg) (items : list pcmd) : list 
            match lookup_outcome c persons pouts with Some o => o | None => single_outcome rd cfg c end
          else single_outcome rd cfg c) items.
 
+(* ---- what one SendBatch item amounts to (proved in Proof/Permission_batch.v) -------------------
+   The ids the batch planners derive, the facts they read, and the outcome of one item. *)
+
+Definition group_id (cmd : pcmd) : bytes := fst (FromCommandChannel (c_chan cmd)).
+
+(* the permission channel id checkPersonSendPermissionsBatch works with *)
+Definition person_batch_normalized (cmd : pcmd) : option bytes :=
+  let src := fst (FromCommandChannel (c_chan cmd)) in
+  if c_norm cmd then NormalizePersonChannel (c_from cmd) src else Some src.
+Definition person_batch_cid (cmd : pcmd) (nid : bytes) : bytes :=
+  if snd (FromCommandChannel (c_chan cmd)) then ToCommandChannel nid else nid.
+Definition person_batch_id (cmd : pcmd) : option bytes :=
+  match person_batch_normalized cmd with
+  | None => None
+  | Some nid => Some (fst (FromCommandChannel (person_batch_cid cmd nid)))
+  end.
+
+Definition facts_batch (rd : reader) (cfg : pcfg) (cmd : pcmd) : facts :=
+  if c_type cmd =? channelTypePerson
+  then facts_at rd cfg cmd (is_none (person_batch_id cmd)) (id_or_nil (person_batch_id cmd))
+  else facts_at rd cfg cmd false (group_id cmd).
+
+(* the channel id of the outcome *)
+Definition batch_out (cmd : pcmd) : bytes :=
+  if c_type cmd =? channelTypePerson then
+    match person_batch_normalized cmd with
+    | None => fst (FromCommandChannel (c_chan cmd))
+    | Some nid => person_batch_cid cmd nid
+    end
+  else c_chan cmd.
+
+(* the outcome of one SendBatch item on an App with a PermissionBatchStore *)
+Definition batch_outcome1 (rd : reader) (cfg : pcfg) (cmd : pcmd) : outcome :=
+  if batched_group cmd || batched_person cmd
+  then (batch_out cmd, decide_batch (facts_batch rd cfg cmd))
+  else single_outcome rd cfg cmd.
+
 (* ---- permission_cache.go ---------------------------------------------------------------------
    Read-through cache over a store that answers [store k]; one map (the three maps of the
    code are the same generic code on disjoint key types).  A value is cached unless the read
@@ -802,10 +846,7 @@ Definition sig_k1 (cmd : pcmd) : bool :=
 
 (* C36-K2 signature: command + facts + the two observations *)
 Definition sig_k2 (rd : reader) (cfg : pcfg) (cmd : pcmd) (o0 ob : obs) : bool :=
-  let f := facts_single rd cfg cmd in
-  cmd_batchable cmd && (c_type cmd =? channelTypePerson)
-  && negb (f_norm f && f_norm_err f) && negb (f_sender_sys f) && negb (f_device_sys f)
-  && f_decode_err f
+  k2_cond (facts_single rd cfg cmd)
   && obs_eqb ob (Obs ReasonSuccess (errc_code EPerson) None)
   && negb (obs_eqb o0 ob).
 
@@ -861,3 +902,17 @@ Definition C36_monitor (c : c36_case) : N :=
   else if existsb (N.eqb 2) codes then 2
   else if existsb (N.eqb 3) codes then 3
   else 0.
+
+(* ---- vocabulary of the monitor theorem ------------------------------------------------------------ *)
+
+(* the case whose observations are the model's *)
+Definition model_case (cfg : pcfg) (tbl : list (pread * rresult)) (items : list pcmd) : c36_case :=
+  let c0 := C36Case cfg tbl items [] in
+  C36Case cfg tbl items (map (fun p => (p, model_path c0 p)) path_ids).
+
+Definition single_obs (cfg : pcfg) (tbl : list (pread * rresult)) (items : list pcmd) : list obs :=
+  map (fun cmd => obs_of (single_outcome (table_reader tbl) cfg cmd)) items.
+
+(* no item of the batch falls under C36-K1 or C36-K2 *)
+Definition no_divergence (cfg : pcfg) (tbl : list (pread * rresult)) (items : list pcmd) : bool :=
+  forallb (fun c => negb (sig_k1 c) && negb (k2_cond (facts_single (table_reader tbl) cfg c))) items.
